@@ -1,0 +1,441 @@
+//go:build verif
+
+package internal
+
+import (
+	"context"
+	"encoding/json"
+	"fmt"
+	"sort"
+	"strings"
+	"sync"
+	"sync/atomic"
+	"testing"
+	"time"
+
+	"github.com/gotid/god/internal/verifdrv"
+	clientv3 "go.etcd.io/etcd/client/v3"
+	"google.golang.org/grpc"
+	"google.golang.org/grpc/connectivity"
+)
+
+const verifWait = 5 * time.Second
+
+// The protobuf types behind clientv3.GetResponse / clientv3.Event live in go.etcd.io/etcd/api/v3, which
+// go.mod lists as an indirect dependency only; they are reached through the fields of the clientv3
+// aliases so that this file needs no import go.mod would have to record.
+func verifNew[T any](p **T) *T {
+	v := new(T)
+	*p = v
+	return v
+}
+
+func verifAppendNew[T any](s *[]*T) *T {
+	v := new(T)
+	*s = append(*s, v)
+	return v
+}
+
+func verifMkEvent(put bool, key, val string, rev int64) *clientv3.Event {
+	e := &clientv3.Event{Type: clientv3.EventTypeDelete}
+	if put {
+		e.Type = clientv3.EventTypePut
+	}
+	kv := verifNew(&e.Kv)
+	kv.Key = []byte(key)
+	if put {
+		kv.Value = []byte(val)
+	}
+	kv.ModRevision = rev
+	return e
+}
+
+// ---------------------------------------------------------------- fake etcd (EtcdClient)
+
+type verifWatch struct {
+	ch     chan clientv3.WatchResponse
+	prefix string
+	isPfx  bool
+	rev    int64
+	dead   bool // its goroutine was stopped by a reload
+}
+
+type verifEtcd struct {
+	mu      sync.Mutex
+	store   map[string]string
+	rev     int64
+	watches []*verifWatch
+	getRevs []int64
+}
+
+func newVerifEtcd() *verifEtcd {
+	return &verifEtcd{store: map[string]string{}, rev: 1}
+}
+
+func (e *verifEtcd) ActiveConnection() *grpc.ClientConn { return nil }
+func (e *verifEtcd) Close() error                       { return nil }
+func (e *verifEtcd) Ctx() context.Context               { return context.Background() }
+func (e *verifEtcd) Grant(ctx context.Context, ttl int64) (*clientv3.LeaseGrantResponse, error) {
+	return nil, fmt.Errorf("verif: not scripted")
+}
+func (e *verifEtcd) KeepAlive(ctx context.Context, id clientv3.LeaseID) (<-chan *clientv3.LeaseKeepAliveResponse, error) {
+	return nil, fmt.Errorf("verif: not scripted")
+}
+func (e *verifEtcd) Put(ctx context.Context, key, val string, opts ...clientv3.OpOption) (*clientv3.PutResponse, error) {
+	return nil, fmt.Errorf("verif: not scripted")
+}
+func (e *verifEtcd) Revoke(ctx context.Context, id clientv3.LeaseID) (*clientv3.LeaseRevokeResponse, error) {
+	return nil, fmt.Errorf("verif: not scripted")
+}
+
+// Get returns the snapshot of the store selected by (key, opts) at the current revision.
+func (e *verifEtcd) Get(ctx context.Context, key string, opts ...clientv3.OpOption) (*clientv3.GetResponse, error) {
+	op := clientv3.OpGet(key, opts...)
+	isPfx := string(op.RangeBytes()) == clientv3.GetPrefixRangeEnd(key)
+	e.mu.Lock()
+	defer e.mu.Unlock()
+	var keys []string
+	for k := range e.store {
+		if (isPfx && strings.HasPrefix(k, key)) || (!isPfx && k == key) {
+			keys = append(keys, k)
+		}
+	}
+	sort.Strings(keys)
+	resp := &clientv3.GetResponse{}
+	verifNew(&resp.Header).Revision = e.rev
+	for _, k := range keys {
+		kv := verifAppendNew(&resp.Kvs)
+		kv.Key = []byte(k)
+		kv.Value = []byte(e.store[k])
+	}
+	resp.Count = int64(len(keys))
+	e.getRevs = append(e.getRevs, e.rev)
+	return resp, nil
+}
+
+// Watch registers a stream; the driver feeds it.
+func (e *verifEtcd) Watch(ctx context.Context, key string, opts ...clientv3.OpOption) clientv3.WatchChan {
+	op := clientv3.OpGet(key, opts...)
+	w := &verifWatch{
+		ch:     make(chan clientv3.WatchResponse),
+		prefix: key,
+		isPfx:  string(op.RangeBytes()) == clientv3.GetPrefixRangeEnd(key),
+		rev:    op.Rev(),
+	}
+	e.mu.Lock()
+	e.watches = append(e.watches, w)
+	e.mu.Unlock()
+	return w.ch
+}
+
+func (e *verifEtcd) nWatches() int {
+	e.mu.Lock()
+	defer e.mu.Unlock()
+	return len(e.watches)
+}
+
+func (e *verifEtcd) live() []*verifWatch {
+	e.mu.Lock()
+	defer e.mu.Unlock()
+	var out []*verifWatch
+	for _, w := range e.watches {
+		if !w.dead {
+			out = append(out, w)
+		}
+	}
+	return out
+}
+
+func (w *verifWatch) selects(k string) bool {
+	if w.isPfx {
+		return strings.HasPrefix(k, w.prefix)
+	}
+	return k == w.prefix
+}
+
+// send hands one response to the stream's goroutine; false = nobody took it in time.
+func (w *verifWatch) send(r clientv3.WatchResponse) bool {
+	select {
+	case w.ch <- r:
+		return true
+	case <-time.After(verifWait):
+		return false
+	}
+}
+
+// ---------------------------------------------------------------- fake connection (etcdConn)
+
+type verifConn struct {
+	mu      sync.Mutex
+	state   connectivity.State
+	changed chan struct{}
+	waits   map[connectivity.State]int // WaitForStateChange calls per source state
+}
+
+func newVerifConn() *verifConn {
+	return &verifConn{state: connectivity.Ready, changed: make(chan struct{}), waits: map[connectivity.State]int{}}
+}
+
+func (c *verifConn) GetState() connectivity.State {
+	c.mu.Lock()
+	defer c.mu.Unlock()
+	return c.state
+}
+
+func (c *verifConn) WaitForStateChange(ctx context.Context, src connectivity.State) bool {
+	c.mu.Lock()
+	c.waits[src]++
+	c.mu.Unlock()
+	for {
+		c.mu.Lock()
+		if c.state != src {
+			c.mu.Unlock()
+			return true
+		}
+		ch := c.changed
+		c.mu.Unlock()
+		<-ch
+	}
+}
+
+func (c *verifConn) set(s connectivity.State) {
+	c.mu.Lock()
+	c.state = s
+	close(c.changed)
+	c.changed = make(chan struct{})
+	c.mu.Unlock()
+}
+
+func (c *verifConn) nWaits(s connectivity.State) int {
+	c.mu.Lock()
+	defer c.mu.Unlock()
+	return c.waits[s]
+}
+
+// ---------------------------------------------------------------- recording listener
+
+type verifListener struct {
+	mu    sync.Mutex
+	calls [][]string // ["+", key, val] | ["-", key, val]
+}
+
+func (l *verifListener) OnAdd(kv KV) {
+	l.mu.Lock()
+	l.calls = append(l.calls, []string{"+", kv.Key, kv.Val})
+	l.mu.Unlock()
+}
+
+func (l *verifListener) OnDelete(kv KV) {
+	l.mu.Lock()
+	l.calls = append(l.calls, []string{"-", kv.Key, kv.Val})
+	l.mu.Unlock()
+}
+
+func (l *verifListener) take() [][]string {
+	l.mu.Lock()
+	defer l.mu.Unlock()
+	out := l.calls
+	l.calls = nil
+	if out == nil {
+		out = [][]string{}
+	}
+	return out
+}
+
+// ---------------------------------------------------------------- cases
+
+type verifEvent struct {
+	T string `json:"t"` // sub | put | del | reload
+	K string `json:"k"`
+	V string `json:"v"`
+	D bool   `json:"d"` // delivered through the watch (put/del)
+}
+
+type verifCase struct {
+	Prefix string       `json:"prefix"` // the key passed to Monitor
+	Events []verifEvent `json:"events"`
+}
+
+type verifStep struct {
+	Calls    [][][]string `json:"calls"`     // per listener (subscription order): calls received during this event
+	Cvals    [][2]string  `json:"cvals"`     // cluster.values[prefix] sorted by key
+	HasCvals bool         `json:"has_cvals"` // whether cluster.values has an entry for the prefix
+	Watchers int          `json:"watchers"`  // streams being read after the event
+	GetRev   int64        `json:"get_rev"`   // revision returned by the last Get of this event (0: no Get)
+	WatchRev int64        `json:"watch_rev"` // WithRev of the last Watch opened during this event (-1: none)
+	WatchPfx string       `json:"watch_pfx"` // key of that Watch ("" none); "=" prepended when WithPrefix is missing
+	Gets     int          `json:"gets"`      // Get calls during this event
+	Opened   int          `json:"opened"`    // Watch calls during this event
+	Stuck    string       `json:"stuck"`     // non-empty: a barrier timed out here
+}
+
+var verifSeq int64
+
+func verifWaitFor(cond func() bool) bool {
+	deadline := time.Now().Add(verifWait)
+	for i := 0; ; i++ {
+		if cond() {
+			return true
+		}
+		if time.Now().After(deadline) {
+			return false
+		}
+		if i < 200 {
+			time.Sleep(20 * time.Microsecond)
+		} else {
+			time.Sleep(time.Millisecond)
+		}
+	}
+}
+
+// TestVerifDriver drives Registry.Monitor / cluster with a scripted etcd: every event of the history
+// is applied to the fake store; delivered events are pushed through every open watch stream (followed by
+// an empty response as a barrier: the stream goroutine handles responses one after the other), missed
+// events only change the store; "reload" is a connection loss and recovery seen by the stateWatcher.
+func TestVerifDriver(t *testing.T) {
+	verifdrv.Run(t, func(raw json.RawMessage) any {
+		var cs verifCase
+		if err := json.Unmarshal(raw, &cs); err != nil {
+			return map[string]any{"error": err.Error()}
+		}
+		id := atomic.AddInt64(&verifSeq, 1)
+		endpoints := []string{fmt.Sprintf("verif-%d:2379", id)}
+		etcd := newVerifEtcd()
+		conn := newVerifConn()
+		reg := &Registry{clusters: make(map[string]*cluster)}
+		connManager.Set(getClusterKey(endpoints), etcd) // what cluster.getClient would have created
+		var cl *cluster
+		var listeners []*verifListener
+		steps := []verifStep{}
+		stuck := ""
+
+		for _, ev := range cs.Events {
+			if stuck != "" {
+				break
+			}
+			gets0 := len(etcd.getRevs)
+			opened0 := etcd.nWatches()
+			switch ev.T {
+			case "sub":
+				l := &verifListener{}
+				listeners = append(listeners, l)
+				done := make(chan error, 1)
+				go func() { done <- reg.Monitor(endpoints, cs.Prefix, l) }()
+				select {
+				case err := <-done:
+					if err != nil {
+						stuck = "monitor error: " + err.Error()
+					}
+				case <-time.After(verifWait):
+					stuck = "monitor"
+				}
+				if stuck == "" && !verifWaitFor(func() bool { return etcd.nWatches() >= opened0+1 }) {
+					stuck = "watch after monitor"
+				}
+				if cl == nil && stuck == "" {
+					cl = reg.clusters[getClusterKey(endpoints)]
+					// cluster.watchConnState with the connection replaced by a scripted one
+					// (cli.ActiveConnection() is a concrete *grpc.ClientConn)
+					watcher := newStateWatcher()
+					c, cli := cl, EtcdClient(etcd)
+					watcher.addListener(func() {
+						go c.reload(cli)
+					})
+					go watcher.watch(conn)
+					if !verifWaitFor(func() bool { return conn.nWaits(connectivity.Ready) >= 1 }) {
+						stuck = "state watcher"
+					}
+				}
+			case "put", "del":
+				etcd.mu.Lock()
+				_, present := etcd.store[ev.K]
+				var e *clientv3.Event
+				if ev.T == "put" {
+					etcd.rev++
+					etcd.store[ev.K] = ev.V
+					e = verifMkEvent(true, ev.K, ev.V, etcd.rev)
+				} else if present {
+					etcd.rev++
+					delete(etcd.store, ev.K)
+					e = verifMkEvent(false, ev.K, "", etcd.rev)
+				}
+				etcd.mu.Unlock()
+				if e != nil && ev.D {
+					for _, w := range etcd.live() {
+						if !w.selects(ev.K) {
+							continue
+						}
+						if !w.send(clientv3.WatchResponse{Events: []*clientv3.Event{e}}) || !w.send(clientv3.WatchResponse{}) {
+							stuck = "watch stream not read"
+							break
+						}
+					}
+				}
+			case "reload":
+				if cl == nil {
+					break // nothing is connected yet
+				}
+				nl := len(listeners)
+				w0 := conn.nWaits(connectivity.TransientFailure)
+				r0 := conn.nWaits(connectivity.Ready)
+				conn.set(connectivity.TransientFailure)
+				if !verifWaitFor(func() bool { return conn.nWaits(connectivity.TransientFailure) > w0 }) {
+					stuck = "state watcher (failure)"
+					break
+				}
+				conn.set(connectivity.Ready)
+				if !verifWaitFor(func() bool { return conn.nWaits(connectivity.Ready) > r0 }) {
+					stuck = "state watcher (ready)"
+					break
+				}
+				// reload stops the running streams, then loads and watches again
+				if nl > 0 && !verifWaitFor(func() bool { return etcd.nWatches() >= opened0+1 }) {
+					stuck = "watch after reload"
+					break
+				}
+				etcd.mu.Lock()
+				for _, w := range etcd.watches[:opened0] {
+					w.dead = true
+				}
+				etcd.mu.Unlock()
+			}
+
+			var st verifStep
+			st.Stuck = stuck
+			st.Calls = [][][]string{}
+			for _, l := range listeners {
+				st.Calls = append(st.Calls, l.take())
+			}
+			st.Cvals = [][2]string{}
+			if cl != nil {
+				cl.lock.Lock()
+				vals, ok := cl.values[cs.Prefix]
+				st.HasCvals = ok
+				for k, v := range vals {
+					st.Cvals = append(st.Cvals, [2]string{k, v})
+				}
+				cl.lock.Unlock()
+				sort.Slice(st.Cvals, func(i, j int) bool { return st.Cvals[i][0] < st.Cvals[j][0] })
+			}
+			st.Watchers = len(etcd.live())
+			etcd.mu.Lock()
+			st.Gets = len(etcd.getRevs) - gets0
+			if st.Gets > 0 {
+				st.GetRev = etcd.getRevs[len(etcd.getRevs)-1]
+			}
+			st.Opened = len(etcd.watches) - opened0
+			st.WatchRev = -1
+			if st.Opened > 0 {
+				w := etcd.watches[len(etcd.watches)-1]
+				st.WatchRev = w.rev
+				st.WatchPfx = w.prefix
+				if !w.isPfx {
+					st.WatchPfx = "=" + w.prefix
+				}
+			}
+			etcd.mu.Unlock()
+			steps = append(steps, st)
+		}
+		return map[string]any{"steps": steps}
+	})
+}
